@@ -2,8 +2,8 @@
 # tools/seedtest.sh <Cnn> [other checks to run ...]: confirm a sub-agent's seeded change in its scratch worktree, then run our checks on it
 # (applies the patch to /repo, runs the checks, and undoes it straight afterwards)
 P=$1; shift
-WT=/tmp/wt_$P
-OUT=/verif/seeded/$P
+WT=${SEED_WT:-/tmp/wt_$P}
+OUT=/verif/seeded/${SEED_ID:-$P}
 mkdir -p $OUT
 cd $WT || exit 2
 git diff -- src > /tmp/seed_$P.diff
